@@ -71,3 +71,14 @@ def report():
         ex, tot = out.get(label, (0, 0))
         out[label] = (ex + len(seen & _total[c]), tot + len(_total[c]))
     return {k: list(v) for k, v in sorted(out.items())}
+
+
+def missing():
+    """Statement lines of the watched functions that this process never executed: {label: {"file": path, "lines": [...]}}."""
+    out = {}
+    for c, seen in _seen.items():
+        label = _names[c]
+        miss = sorted(_total[c] - seen)
+        d = out.setdefault(label, {"file": c.co_filename, "lines": []})
+        d["lines"].extend(miss)
+    return {k: {"file": v["file"], "lines": sorted(set(v["lines"]))} for k, v in out.items()}
